@@ -45,7 +45,7 @@ pub struct ObjStmOpts {
     pub filter: ObjStmFilter,
     /// bytes after each member ("" | " " | "\n")
     pub trailing: &'static [u8],
-    /// extra white-space bytes between the header pairs and /First
+    /// extra white-space bytes between the header pairs and /First (usize::MAX: not even the separator)
     pub first_pad: usize,
     pub extends: Option<u64>,
 }
@@ -169,9 +169,12 @@ impl<'a> FileBuilder<'a> {
         }
         // when members have no trailing separator the last body ends the data; a separator between the header
         // and the first body is always needed
-        header.push(b'\n');
-        for _ in 0..opts.first_pad {
-            header.push(b' ');
+        // (first_pad == usize::MAX: no separator at all, which is legal when the first member begins with a delimiter)
+        if opts.first_pad != usize::MAX {
+            header.push(b'\n');
+            for _ in 0..opts.first_pad {
+                header.push(b' ');
+            }
         }
         let first = header.len();
         let mut data = header;
